@@ -10,6 +10,7 @@ ENUM = {
     "thorough": [dict(module="MC_Overlap", cfg="MC_Overlap_thorough.cfg", workers=16, coverage=True)],
 }
 POOL = 12
+PROOFS = ["proofs/P_Overlap.tla"]     # thorough tier: the laws for all integers, discharged by tlapm
 RULE = ("every call of the TLA+ enumeration (interval pairs on 0..N x threshold settings incl. invalid ones; catalogue "
         "geometry pairs x axis x thresholds; geometry x clip x minimum) executed at three exact time units; "
         "non-trivial = the two intervals/extent pairs are not both degenerate and the call is not an argument error")
